@@ -754,9 +754,12 @@ def admissibility(ctx, label, case, model, h):
                   bucket="%s:%s" % (case["eos"], kind))
         # T+ - Tn is only ~1e-6 Tn for slow walls while the inner root for Tn stops at
         # xtol = atol (absolute) and the outer one at rtol: the shock solve determines T+ to
-        # ~100 max(rtol, atol/Tn) (measured: 7e-6 at atol = 1e-7)
+        # ~100 max(rtol, atol/Tn) (measured: 7e-6 .. 1.8e-5 at atol = 1e-7 and vw ~ 0.002); the
+        # v+ root has an ABSOLUTE xtol = atol, i.e. relative accuracy ~ atol/v+ ~ 1/vw: factor
+        # max(1, 0.02/vw)
         bad = clause_failures(kind, vw, vp, vm, Tp, Tm, cs, Tn, h.vJ,
-                              tol=max(1e-9, 100 * max(h.c06_args[2], h.c06_args[3] / Tn)))
+                              tol=max(1e-9, 100 * max(h.c06_args[2], h.c06_args[3] / Tn)
+                                      * max(1.0, 0.02 / vw)))
         rep["hybr_converged"] = conv
         if deton and not bad:
             # hypothesis of first_root_detonation_is_weak: residual >= 0 on [Tn, Tm)
